@@ -1,5 +1,6 @@
 import SqlgrepModel.Lemmas.ParseLift
 import SqlgrepModel.Lemmas.LexSemicolon
+import SqlgrepModel.Lemmas.ParseRenameTree
 import SqlgrepModel.Props.C20Parse
 /-
 C20 — whole statements (audit-2 M11). `Props/C20.lean` is the lexical half, `Props/C20Parse.lean` the parser-level
@@ -238,6 +239,88 @@ theorem trailing_semicolon_same_output (F : Facts) (defs q : List Char) (fmt : P
   exact ⟨Props.Pipeline.runText_depends_on_statements F defs defs q _ fmt single files d s hc ⟨hc.1, c1⟩ hd hd hp hs (hts.1.mp hs),
     Props.Pipeline.runText_depends_on_statements F defs defs q _ fmt single files d s hc ⟨hc.1, c2⟩ hd hd hp hs (hts.2.mp hs)⟩
 
+/-! ### (3) letter case of function, aggregate and type names
+
+FULL STATEMENT (what the sentence says): two texts that differ only in the letter case of function, aggregate and type
+names parse to the same statement.
+PROVED (`…_partial`), for SELECT statements: let `ρ` respell identifiers by a change of letter case (`NameMap ρ`: the
+lower-cased word is the same; compatible with the `.` of qualified names; the two call names the parser makes up,
+`create_array` and `timestamp_extract_<part>`, are fixed — every table of case changes of words with an upper-case
+letter gives one, `nameMap_respell`). If the token vector `toks` starts with SELECT and is read as a tree all of whose
+case-SENSITIVE names (column names, aliases, the table, the join's names) `ρ` fixes, then the vector with EVERY
+identifier token `n` replaced by `ρ n` is read as that tree with its call names respelled, and lowers to the SAME
+statement. That covers function names, aggregate names, the type names of casts `e::INT` (the parser looks a type up
+lower-cased and stores the type, so the two trees are equal there), the word `array` of `array[…]` and the part of
+`EXTRACT(part FROM e)`.
+MISSING: (a) CREATE TABLE texts — the type names of column definitions and the pattern modes `split` / `match` are
+theorems about `parse_type` / `parse_regex_mode` (`C20Parse.column_type_case_insensitive`,
+`regex_mode_case_insensitive`), not lifted to `parseTokens`: the lock-step proof needs an error map and
+`NotDefinedType` quotes `name ++ "[]"…`, which no respelling of `name` commutes with; (b) one respelling for all
+tokens: a text that spells a column `COUNT` and the aggregate `COUNT(…)` and changes the letter case of the second only
+is outside the side condition (`ρ` would have to fix and to change the word `COUNT`). -/
+
+/-- a token vector that starts with SELECT -/
+def SelectVector (toks : List PTok) : Prop := toks.head?.map (·.tok) = some (.kw .select)
+
+instance (toks : List PTok) : Decidable (SelectVector toks) := by unfold SelectVector; infer_instance
+
+/-- **Letter case of names, trees** (`name_case_tree_partial`): respelling every identifier token by `ρ` respells the
+names of the tree; when `ρ` fixes the tree's case-sensitive names, only its call names -/
+theorem name_case_tree_partial (ρ : List Char → List Char) (hρ : NameMap ρ) (toks : List PTok) (hs : SelectVector toks)
+    (t : POp) (ht : parseTokens PrecTables.code toks = .tree t) :
+    parseTokens PrecTables.code (toks.map (PTok.ren ρ)) = .tree (t.renAll ρ) ∧
+    (t.namesFixed ρ = true → parseTokens PrecTables.code (toks.map (PTok.ren ρ)) = .tree (t.renameCalls ρ)) := by
+  have h := parseTokens_select_ren hρ noIdentOps_code toks hs
+  rw [ht] at h
+  exact ⟨h, fun hf => by rw [h, ParseOutcome.ren, POp.renAll_of_fixed hf]⟩
+
+/-- **Letter case of function, aggregate and type names, statements** (`name_case_statement_partial`): … and therefore
+`parsing::parse` answers the SAME `LStmt` on the respelled vector -/
+theorem name_case_statement_partial (rv : List Char → Bool) (ρ : List Char → List Char) (hρ : NameMap ρ)
+    (toks : List PTok) (hs : SelectVector toks) (t : POp) (ht : parseTokens PrecTables.code toks = .tree t)
+    (hfix : t.namesFixed ρ = true) (s : LStmt) (h : parseToks rv toks = .stmt s) :
+    parseToks rv (toks.map (PTok.ren ρ)) = .stmt s := by
+  have h2 := (name_case_tree_partial ρ hρ toks hs t ht).2 hfix
+  unfold parseToks at h ⊢
+  rw [ht] at h
+  rw [h2]
+  simp only [lowerTree] at h ⊢
+  rw [C20Parse.names_case_insensitive_statement ρ hρ.caseOnly rv t]
+  cases hl : lowerStatement rv t with
+  | ok s' => rw [hl] at h; simp only [Parsed.stmt.injEq] at h; simp [LRes.mapErr, h]
+  | err e => rw [hl] at h; cases h
+  | panic e => rw [hl] at h; cases h
+
+/-- **… texts** (`name_case_text_partial`): two texts whose token vectors carry the same tokens up to the respelling
+(at any locations) parse to the same statement -/
+theorem name_case_text_partial (o : Lex.Oracles) (rv : List Char → Bool) (ρ : List Char → List Char) (hρ : NameMap ρ)
+    (text₁ text₂ : List Char) (ts₁ ts₂ : List PTok)
+    (ht₁ : Lex.tokenize o text₁ = .ok ts₁) (ht₂ : Lex.tokenize o text₂ = .ok ts₂)
+    (hren : ts₂.map (·.tok) = ts₁.map (fun t => t.tok.ren ρ)) (hs : SelectVector ts₁)
+    (t : POp) (ht : parseTokens PrecTables.code ts₁ = .tree t) (hfix : t.namesFixed ρ = true)
+    (s : LStmt) (h : parseText o rv text₁ = .stmt s) : parseText o rv text₂ = .stmt s := by
+  unfold parseText at h ⊢
+  rw [ht₁] at h
+  rw [ht₂]
+  have h1 := name_case_statement_partial rv ρ hρ ts₁ hs t ht hfix s h
+  refine Props.Pipeline.location_blind rv (ts₁.map (PTok.ren ρ)) ts₂ ?_ s h1
+  rw [hren, List.map_map]
+  rfl
+
+/-- **… and therefore the same output** -/
+theorem name_case_same_output_partial (F : Facts) (ρ : List Char → List Char) (hρ : NameMap ρ)
+    (defs text₁ text₂ : List Char) (fmt : Print.Format) (single : Bool) (files : List (List Nat)) (ts₁ ts₂ : List PTok)
+    (ht₁ : Lex.tokenize (lexOracles F) text₁ = .ok ts₁) (ht₂ : Lex.tokenize (lexOracles F) text₂ = .ok ts₂)
+    (hren : ts₂.map (·.tok) = ts₁.map (fun t => t.tok.ren ρ)) (hs : SelectVector ts₁)
+    (t : POp) (ht : parseTokens PrecTables.code ts₁ = .tree t) (hfix : t.namesFixed ρ = true) (d q : LStmt)
+    (hc₁ : classesCover F defs = true ∧ classesCover F text₁ = true) (hc₂ : classesCover F text₂ = true)
+    (hd : parseText (lexOracles F) (regexValidFn F) defs = .stmt d)
+    (hp : (createPatterns d).all (fun re => ((Utf8.decode re).bind (regexValidOf F)).isSome) = true)
+    (hq : parseText (lexOracles F) (regexValidFn F) text₁ = .stmt q) :
+    runText F defs text₁ fmt single files = runText F defs text₂ fmt single files :=
+  Props.Pipeline.runText_depends_on_statements F defs defs text₁ text₂ fmt single files d q hc₁ ⟨hc₁.1, hc₂⟩ hd hd hp hq
+    (name_case_text_partial _ _ ρ hρ text₁ text₂ ts₁ ts₂ ht₁ ht₂ hren hs t ht hfix q hq)
+
 /-! ### non-vacuity: concrete texts (kernel-evaluated) -/
 
 /-- the token vector of an ASCII text -/
@@ -316,6 +399,58 @@ example :
     Props.Pipeline.recordsOf (runText Props.Pipeline.exFacts Props.Pipeline.exDefs "select COUNT(*) from t".toList .json true [strBytes "a;1\nb;2\n"]) =
     Props.Pipeline.recordsOf (runText Props.Pipeline.exFacts Props.Pipeline.exDefs "select COUNT(*) from t -- rows;".toList .json true [strBytes "a;1\nb;2\n"]) ∧
     (Props.Pipeline.recordsOf (runText Props.Pipeline.exFacts Props.Pipeline.exDefs "select COUNT(*) from t".toList .json true [strBytes "a;1\nb;2\n"])).isSome = true := by
+  decide +kernel
+
+def exQ4 : String := "select COUNT(*), Abs(x)::INT from t where X > 1"
+def exQ5 : String := "SELECT count(*), abs(x)::int FROM t WHERE X > 1"
+/-- `COUNT` ↦ `count`, `Abs` ↦ `abs`, `INT` ↦ `int`; the column `X` keeps its spelling -/
+def exTable : List (List Char × List Char) :=
+  [("COUNT".toList, "count".toList), ("Abs".toList, "abs".toList), ("INT".toList, "int".toList)]
+
+def treeOf : ParseOutcome → Option POp
+  | .tree t => some t
+  | _ => none
+
+/-- every hypothesis of `name_case_text_partial` holds on `select COUNT(*), Abs(x)::INT from t where X > 1` against
+`SELECT count(*), abs(x)::int FROM t WHERE X > 1`: the table is a table of case changes, the second text's tokens are
+the first's respelled, the first text starts with SELECT and parses to a tree whose case-sensitive names (`x`, `X`,
+`t`) the respelling fixes, and to a statement -/
+theorem exNameCaseHyps :
+    RespellTable exTable = true ∧
+    (exToks exQ5).map (·.tok) = (exToks exQ4).map (fun t => t.tok.ren (segwise (respell exTable))) ∧
+    SelectVector (exToks exQ4) ∧
+    ((treeOf (parseTokens PrecTables.code (exToks exQ4))).map (POp.namesFixed (segwise (respell exTable)))) = some true ∧
+    Lex.tokenize Lex.Tables.asciiOnly exQ4.toList = .ok (exToks exQ4) ∧
+    Lex.tokenize Lex.Tables.asciiOnly exQ5.toList = .ok (exToks exQ5) ∧
+    isStmt (parseText Lex.Tables.asciiOnly (fun _ => true) exQ4.toList) = true := by decide +kernel
+
+/-- … so the theorem applies: whatever statement the first text parses to, the second parses to it -/
+example (s : LStmt) (h : parseText Lex.Tables.asciiOnly (fun _ => true) exQ4.toList = .stmt s) :
+    parseText Lex.Tables.asciiOnly (fun _ => true) exQ5.toList = .stmt s := by
+  obtain ⟨h1, h2, h3, h4, h5, h6, _⟩ := exNameCaseHyps
+  cases ht : parseTokens PrecTables.code (exToks exQ4) with
+  | tree t =>
+    rw [ht] at h4
+    simp only [treeOf, Option.map_some, Option.some.injEq] at h4
+    exact name_case_text_partial _ _ _ (nameMap_respell exTable h1) _ _ _ _ h5 h6 h2 h3 t ht h4 s h
+  | error e => rw [ht] at h4; cases h4
+  | fuel => rw [ht] at h4; cases h4
+  | panic => rw [ht] at h4; cases h4
+
+/-- function, aggregate and cast-type names in two spellings, through the whole program: the same printed records -/
+example :
+    Props.Pipeline.recordsOf (runText Props.Pipeline.exFacts Props.Pipeline.exDefs
+      "SELECT k, Abs(v)::TEXT FROM t WHERE Abs(v) > 0".toList .text false [strBytes "a;1\nb;2\n"]) =
+    Props.Pipeline.recordsOf (runText Props.Pipeline.exFacts Props.Pipeline.exDefs
+      "select k, ABS(v)::text from t where abs(v) > 0".toList .text false [strBytes "a;1\nb;2\n"]) ∧
+    Props.Pipeline.recordsOf (runText Props.Pipeline.exFacts Props.Pipeline.exDefs
+      "SELECT k, MAX(v), COUNT(*) FROM t GROUP BY k".toList .text false [strBytes "a;1\nb;2\n"]) =
+    Props.Pipeline.recordsOf (runText Props.Pipeline.exFacts Props.Pipeline.exDefs
+      "SELECT k, max(v), Count(*) FROM t GROUP BY k".toList .text false [strBytes "a;1\nb;2\n"]) ∧
+    (Props.Pipeline.recordsOf (runText Props.Pipeline.exFacts Props.Pipeline.exDefs
+      "SELECT k, Abs(v)::TEXT FROM t WHERE Abs(v) > 0".toList .text false [strBytes "a;1\nb;2\n"])).isSome = true ∧
+    (Props.Pipeline.recordsOf (runText Props.Pipeline.exFacts Props.Pipeline.exDefs
+      "SELECT k, MAX(v), COUNT(*) FROM t GROUP BY k".toList .text false [strBytes "a;1\nb;2\n"])).isSome = true := by
   decide +kernel
 
 end Sqlgrep.Props.C20Stmt
